@@ -81,7 +81,7 @@ impl Check for C08 {
     }
     fn cases(&self, tier: Tier) -> u32 {
         match tier {
-            Tier::Quick => 3000,
+            Tier::Quick => 6000,
             Tier::Thorough => 90_000,
         }
     }
@@ -779,7 +779,7 @@ impl Check for C15 {
     }
     fn cases(&self, tier: Tier) -> u32 {
         match tier {
-            Tier::Quick => 2500,
+            Tier::Quick => 5000,
             Tier::Thorough => 80_000,
         }
     }
